@@ -220,7 +220,7 @@ func (c *counters) add(k string, n int) { c.m[k] += n }
 
 // buildHistory generates a chain of n blocks on a producer node (archival, MemoryStore), which is also
 // the reference node: its observation is recorded after every block.
-func buildHistory(r *prng.R, p Proto, n int, o *counters, emptyOnly bool) (h *History, err error) {
+func buildHistory(r *prng.R, p Proto, n int, o *counters, withTxs func(i int) bool, want func(h uint32) bool) (h *History, err error) {
 	t := &tb{}
 	defer t.done()
 	h = &History{Proto: p}
@@ -280,8 +280,8 @@ func buildHistory(r *prng.R, p Proto, n int, o *counters, emptyOnly bool) (h *Hi
 				info BlockInfo
 			)
 			switch {
-			case emptyOnly:
-			case i == 1: // fund the accounts
+			case !withTxs(i):
+			case i == 1 && withTxs(1): // fund the accounts
 				for _, a := range b.accs {
 					txs = append(txs, b.call(val, b.gas, "transfer", val.ScriptHash(), a.ScriptHash(), int64(5000_0000_0000), nil))
 				}
@@ -307,7 +307,11 @@ func buildHistory(r *prng.R, p Proto, n int, o *counters, emptyOnly bool) (h *Hi
 			}
 			h.Blocks = append(h.Blocks, blk)
 			h.Info = append(h.Info, info)
-			h.Ref = append(h.Ref, observe(bc, h, uint32(i)))
+			if want(uint32(i)) {
+				h.Ref = append(h.Ref, observe(bc, h, uint32(i)))
+			} else {
+				h.Ref = append(h.Ref, observeRootOnly(bc, uint32(i)))
+			}
 		}
 	})
 	return h, err
